@@ -443,7 +443,8 @@ func c10Run(t *testing.T, cfg c10Config) c10Outcome {
 	var tokens [][]byte
 	for dial := 1; dial <= 3 && out.fail == nil; dial++ {
 		var fl sim.Flight
-		spec := cfg.spec() // a fresh spec value per dial: reuse of one value is C02's subject
+		var spec *quic.QUICSpec // a fresh spec value per dial: reuse of one value is C02's subject
+		sim.WithSeed(t, cfg.Seed*16+uint64(dial)+1000, func() { spec = cfg.spec() })
 		ok := sim.Run(t, "run", cfg.Seed*16+uint64(dial), func(t *testing.T) {
 			w := sim.NewWorld(nil)
 			d, _, _ := w.NewDialer(sim.ClientKind{Name: "spec", U: true, Spec: func() *quic.QUICSpec { return spec }})
